@@ -153,13 +153,29 @@ class ValidRenderer(concretise.Concretiser):
 
 
 # ------------------------------------------------------------------ behaviours
-def behaviours(n, seed, ck, max_faults=2, max_steps=14, tag="faults"):
+def behaviours(n, seed, ck, max_faults=2, max_steps=14, tag="faults", blocks_only=False):
     vocab.get()
     cfg = tlc.cfg_text(init="FInit", next_="FNext",
                        constants={"MaxDepth": 5, "MaxSteps": max_steps, "Ids": {1, 2, 3, 4}, "StepPosts": False,
-                                  "Mode": "nodup", "MaxFaults": max_faults},
+                                  "Mode": "nodup", "MaxFaults": max_faults, "BlocksOnly": blocks_only},
                        invariants=["FEmit", "VerdictIgnoresVariant"])
     r = tlc.run("Faults", cfg, tag=tag, mode="simulate", simulate="num=%d" % n, depth=max_steps + 12, seed=seed, timeout=1800)
+    if r.violated:
+        raise common.MachineryFailure("Faults model property %s violated" % r.violated)
+    if ck is not None:
+        ck.add_tlc(tag, r)
+    return [p for p in r.prints if isinstance(p, dict) and "faults" in p]
+
+
+def nested_object_behaviours(ck, max_steps=3, tag="faults_nested"):
+    """exhaustive: every document of <= max_steps block openers / ENDs (all root types, upper-case keywords), one
+    object-level fault on any block, variant none"""
+    vocab.get()
+    cfg = tlc.cfg_text(init="FInit", next_="FNext",
+                       constants={"MaxDepth": 5, "MaxSteps": max_steps, "Ids": {1}, "StepPosts": False,
+                                  "Mode": "nodupall", "MaxFaults": 1, "BlocksOnly": True},
+                       invariants=["FEmit", "VerdictIgnoresVariant"]) + "CONSTANT Cases <- CasesOne\nCONSTANT Variants <- VariantsNone\n"
+    r = tlc.run("Faults", cfg, tag=tag, workers=1, timeout=1800)
     if r.violated:
         raise common.MachineryFailure("Faults model property %s violated" % r.violated)
     if ck is not None:
